@@ -383,7 +383,9 @@ def rule_hof_order(ctx: Ctx) -> None:
         if not (isinstance(ent, ast.Tuple) and len(ent.elts) == 2):
             raise AnalysisError(f"update_hof: inserted entry `{short(c)}` is not a (score, circuit) pair")
         sc = norm(ent.elts[0])
-        ce = ent.elts[1]
+        ce = _block_value(c, ent.elts[1])
+        if isinstance(ce, ast.IfExp):
+            ce = ce.body
         while isinstance(ce, ast.Call) and isinstance(ce.func, ast.Attribute) and ce.func.attr in ("copy", "deepcopy"):
             ce = ce.func.value
         circ = norm(ce)
@@ -405,6 +407,23 @@ def rule_hof_order(ctx: Ctx) -> None:
             ctx.fail("hof.order", m, c, f"`{short(c)}` guarded by `{txt[:80]}` does not insert the new entry at the first position whose score "
                                         f"is larger: the hall of fame is no longer ordered by non-decreasing score",
                      func="RandomSearchSolver.update_hof", construct=f"update_hof: insert at {norm(c.args[0])} under {txt[:60]}")
+
+
+def _block_value(call, e):
+    """the expression a plain name stands for at `call`: the nearest assignment to it earlier in the same statement block"""
+    if not isinstance(e, ast.Name):
+        return e
+    st = call
+    while parent(st) is not None and not isinstance(st, ast.stmt):
+        st = parent(st)
+    blk = parent(st)
+    for name in ("body", "orelse", "finalbody"):
+        body = getattr(blk, name, None)
+        if isinstance(body, list) and any(st is b for b in body):
+            for prev in reversed(body[:[i for i, b in enumerate(body) if b is st][0]]):
+                if isinstance(prev, ast.Assign) and any(isinstance(t, ast.Name) and t.id == e.id for t in prev.targets):
+                    return prev.value
+    return e
 
 
 # --------------------------------------------------------------------------- C18 metric sources
